@@ -57,7 +57,9 @@ None == [v |-> "none", i |-> 0]    \* IR: no collector / no break collector
    expression  [op, l, r]      op = "atom": the atom l;  "+", "-": l op r;  "g": the call g(l, r)
    condition   [op, e, k]      e OP k with OP in < <= == != and k a constant
    body        Ret(x) | If(c, t, e) | TailCall(args) | Discard(args, x) | Bind(args, x)
-   function    [np, print, body]   print = i > 0: parameter i is printed on entry
+   function    [np, print, body, unit]   print = i > 0: parameter i is printed on entry;
+                               unit: the function returns no value (its leaves are Ret(0) and TailCall;
+                               a self call at the end of a branch is then a tail call by definition)
    program     [f, g]          f is the function under study; g (two parameters, calls nothing
                                but itself) may be called from f's conditions and arguments *)
 EAtom(a)       == [op |-> "atom", l |-> a, r |-> a]
@@ -68,7 +70,8 @@ If(c, t, e)    == [kind |-> "if", c |-> c, t |-> t, e |-> e]
 TailCall(as)   == [kind |-> "tail", args |-> as]
 Discard(as, x) == [kind |-> "disc", args |-> as, x |-> x]
 Bind(as, x)    == [kind |-> "bind", args |-> as, x |-> x]
-Fun(np, print, body) == [np |-> np, print |-> print, body |-> body]
+Fun(np, print, body) == [np |-> np, print |-> print, body |-> body, unit |-> FALSE]
+UnitFun(np, print, body) == [np |-> np, print |-> print, body |-> body, unit |-> TRUE]
 NoG            == Fun(2, 0, Ret(EAtom(P(1))))
 
 Holds(op, x, k) == CASE op = "<" -> x < k [] op = "<=" -> x <= k [] op = "==" -> x = k [] op = "!=" -> x # k
@@ -143,39 +146,40 @@ LV(d, init, loop)  == [d |-> d, init |-> init, loop |-> loop]
 (* What the front end produces for a body (hir_lowering.rs): every compound expression and every call
    gets a temporary; an if-else yields its value through one final assignment; `let r = f(..)` copies
    the collector into a late-initialised variable; `let _ = f(..)` keeps the collector.  Result of
-   lowering: [s: statements, v: the atom holding the value, n: next free temporary]. *)
+   lowering: [s: statements, v: the atom holding the value, n: next free temporary].
+   In a function without a value (`unit`) a call has no collector and every value is the literal 0. *)
 MAtom(a, rv) == IF a.v = "r" THEN rv ELSE a
 LowerExpr(e, rv, n) ==
   CASE e.op = "atom" -> [s |-> <<>>, v |-> MAtom(e.l, rv), n |-> n]
     [] e.op = "g"    -> [s |-> <<SCall("g", <<MAtom(e.l, rv), MAtom(e.r, rv)>>, T(n))>>, v |-> T(n), n |-> n + 1]
     [] OTHER         -> [s |-> <<SBin(T(n), e.op, MAtom(e.l, rv), MAtom(e.r, rv))>>, v |-> T(n), n |-> n + 1]
-RECURSIVE LowerArgs(_, _, _, _), LowerBody(_, _, _, _)
+RECURSIVE LowerArgs(_, _, _, _), LowerBody(_, _, _, _, _)
 LowerArgs(es, i, rv, acc) ==
   IF i > Len(es) THEN acc
   ELSE LET x == LowerExpr(es[i], rv, acc.n) IN
        LowerArgs(es, i + 1, rv, [s |-> acc.s \o x.s, vs |-> Append(acc.vs, x.v), n |-> x.n])
-LowerBody(self, b, rv, n) ==
-  CASE b.kind = "ret" -> LowerExpr(b.x, rv, n)
+LowerBody(self, unit, b, rv, n) ==
+  CASE b.kind = "ret" -> IF unit THEN [s |-> <<>>, v |-> K(0), n |-> n] ELSE LowerExpr(b.x, rv, n)
     [] b.kind = "if" ->
          LET ce == LowerExpr(b.c.e, rv, n)
              tc == T(ce.n)
              tv == T(ce.n + 1)
-             lt == LowerBody(self, b.t, rv, ce.n + 2)
-             le == LowerBody(self, b.e, rv, lt.n)
+             lt == LowerBody(self, unit, b.t, rv, ce.n + 2)
+             le == LowerBody(self, unit, b.e, rv, lt.n)
          IN [s |-> ce.s \o <<SBin(tc, b.c.op, ce.v, K(b.c.k)), SIf(tc, lt.s, le.s, <<FA(tv, lt.v, le.v)>>)>>,
              v |-> tv, n |-> le.n]
     [] OTHER ->
          LET la == LowerArgs(b.args, 1, rv, [s |-> <<>>, vs |-> <<>>, n |-> n])
              tr == T(la.n)
-             call == SCall(self, la.vs, tr)
-         IN (CASE b.kind = "tail" -> [s |-> Append(la.s, call), v |-> tr, n |-> la.n + 1]
+             call == SCall(self, la.vs, IF unit THEN None ELSE tr)
+         IN (CASE b.kind = "tail" -> [s |-> Append(la.s, call), v |-> IF unit THEN K(0) ELSE tr, n |-> la.n + 1]
                [] b.kind = "disc" -> LET lx == LowerExpr(b.x, rv, la.n + 1) IN
                                      [s |-> Append(la.s, call) \o lx.s, v |-> lx.v, n |-> lx.n]
                [] b.kind = "bind" -> LET t2 == T(la.n + 1)
                                          lx == LowerExpr(b.x, t2, la.n + 2) IN
                                      [s |-> la.s \o <<call, SCopy(t2, tr)>> \o lx.s, v |-> lx.v, n |-> lx.n])
 LowerFun(name, fun) ==
-  LET lb == LowerBody(name, fun.body, None, 1) IN
+  LET lb == LowerBody(name, fun.unit, fun.body, None, 1) IN
   [name |-> name, np |-> fun.np, params |-> [i \in 1..fun.np |-> P(i)],
    body |-> (IF fun.print = 0 THEN <<>> ELSE <<SPrint(P(fun.print))>>) \o lb.s, ret |-> lb.v, n |-> lb.n]
 
@@ -309,6 +313,7 @@ SoundAt(prog, pm, args) == LET r == Ref(prog, args) IN r.ok => RunIR(pm, args) =
 FaithfulAt(prog, pl, args) == RunIR(pl, args) = Ref(prog, args)
 FuelExactAt(prog, pm, args) == Ref(prog, args).ok = RunIR(pm, args).ok
 
-(* What a compiled program prints for `println(fromInt(f(args)))`: the printed parameters, then the value *)
-Lines(r) == [i \in 1..(Len(r.out) + 1) |-> IF i <= Len(r.out) THEN ToString(r.out[i]) ELSE ToString(r.v)]
+(* What a compiled program prints for `println(fromInt(f(args)))`: the printed parameters, then the value
+   (for a function without a value, `f(args)`: the printed parameters only) *)
+Lines(r, unit) == [i \in 1..(Len(r.out) + (IF unit THEN 0 ELSE 1)) |-> IF i <= Len(r.out) THEN ToString(r.out[i]) ELSE ToString(r.v)]
 =============================================================================
